@@ -614,3 +614,60 @@ def local_call_bodies(prog, body, blocks=None):
         if cb is not None:
             out.append((b, t, cb))
     return out
+
+
+def access_path(body, op, depth=0):
+    """Steps from the root object to the place an operand denotes, through borrows, moves and method chains:
+    [('arg', n) | ('field', adt, name) | ('call', tail2-name, block)]. Ambiguous (multi-def) locals give ('phi', local)."""
+    p = op_place(op)
+    if p is None:
+        return [("const",)]
+    return _access_place(body, p, depth)
+
+
+def _access_place(body, p, depth):
+    if depth > 24:
+        return [("deep",)]
+    steps = _access_local(body, p["l"], depth + 1)
+    for e in p["p"]:
+        if isinstance(e, dict) and "f" in e and e.get("adt") and not e["adt"].startswith(("core::", "alloc::", "std::")):
+            steps = steps + [("field", e["adt"], e.get("name"))]
+        elif isinstance(e, dict) and "downcast" in e:
+            steps = steps + [("variant", e.get("name"))]
+    return steps
+
+
+def _access_local(body, l, depth):
+    ds = [d for d in body.defs.get(l, []) if d[0] in ("stmt", "call", "arg")]
+    if len(ds) != 1:
+        return [("phi", l)]
+    d = ds[0]
+    if d[0] == "arg":
+        return [("arg", d[1])]
+    if d[0] == "stmt":
+        rv = d[3]
+        q = rv.get("ref") or rv.get("rawptr")
+        if q is not None:
+            return _access_place(body, q, depth + 1)
+        if "use" in rv:
+            pp = op_place(rv["use"])
+            return _access_place(body, pp, depth + 1) if pp else [("const",)]
+        if "cast" in rv:
+            pp = op_place(rv["cast"]["op"])
+            return _access_place(body, pp, depth + 1) if pp else [("const",)]
+        if "agg" in rv:
+            return [("agg", d[1], d[2])]
+        return [("rv", d[1], d[2])]
+    t = d[2]
+    fr = op_fn(t["func"])
+    name = tail(fn_name(fr), 2) if fr else "<indirect>"
+    base = _access_place(body, op_place(t["args"][0]), depth + 1) if t["args"] and op_place(t["args"][0]) else []
+    return base + [("call", name, d[1])]
+
+
+def path_fields(steps):
+    return [(s[1].split("::")[-1], s[2]) for s in steps if s[0] == "field"]
+
+
+def path_calls(steps):
+    return [s for s in steps if s[0] == "call"]
